@@ -18,6 +18,7 @@ func init() {
 			"R16.2 also: the container a consumer pipes records into starts empty; R16.3 also: a record returned by a reader's Read is never appended to a table as it is; R16.4 also: a failed call may not be re-executed by a loop without its error having been returned. " +
 			"R16.2 also: the emptied destination is grown by the very n its capacity is then set to. " +
 			"R16.4 also: an io.WriterTo source never writes straight to the output, and in-memory sources are parsed completely before anything is written. " +
+			"R16.4 also: the producer's reflective branch dispatches on the dereferenced source value. " +
 			"NOT decided: record-for-record equality with encoding/csv.",
 		Run: runC16,
 	})
